@@ -728,7 +728,10 @@ func c07ExpTag(q c07Req) string {
 }
 
 func c07RunHistory(r *vrt.R, st *c07Stats, sc c07Sc) {
-	L := sc.L
+	L := sc.L // the limit in force without an override; the server field is sc.L (0 = left at the 4 MiB default)
+	if L <= 0 {
+		L = DefaultMaxRequestBodySize
+	}
 	g := &c07Gen{perRead: sc.PerRead}
 	type exp struct {
 		limit    int64
@@ -787,7 +790,7 @@ func c07RunHistory(r *vrt.R, st *c07Stats, sc c07Sc) {
 			}
 			return RequestConfig{}
 		},
-		MaxRequestBodySize: L,
+		MaxRequestBodySize: sc.L,
 		ReadBufferSize:     sc.RBS,
 		Logger:             c07NopLogger{},
 		NoDefaultDate:      true,
@@ -869,6 +872,10 @@ func c07RunHistory(r *vrt.R, st *c07Stats, sc c07Sc) {
 	st.add("history_over_limit_own_"+c07OvName(q.Ov, L)+"_after_"+prev(firstOver), 1)
 	r.NontrivialHash(c07Hash([]byte(sc.String())))
 	tag := fmt.Sprintf("%s%s:own-override-%s-after-%s", q.Kind, c07ExpTag(q), c07OvName(q.Ov, L), prev(firstOver))
+	if sc.L <= 0 {
+		tag += ":default-server-limit"
+		st.add("history_over_limit_default_server_limit", 1)
+	}
 	if q.Expect {
 		st.add("history_over_limit_expect_request", 1)
 	}
@@ -1539,12 +1546,13 @@ func c07Scenarios(r *vrt.R) []c07Sc {
 	for _, b := range base {
 		if eff := c07EffLimit(b); !r.Thorough() && eff >= 1<<20 {
 			// quick tier, limits of 1 MiB and the 4 MiB default: only the shapes at and just above the limit and the endless
-			// ones (Content-Length L / L+1 / 2^40, one chunk of L, one chunk of L+1, endless chunks of L / L+1 bytes); the
+			// ones (Content-Length L / L+1 / 2^40, one chunk of L+1, endless chunks of L+1 bytes; against 1 MiB also L-1, one chunk of L, endless chunks of L bytes); the
 			// thorough tier runs every shape in every configuration
 			switch {
 			case b.Kind == "cl" && b.Total == eff-1 && eff > 1<<20,
 				b.Kind == "chunked" && b.CSize < eff,
-				b.Kind == "chunked" && !(b.Total == eff+1 || b.Total < 0 || (b.Total == eff && b.L >= 0)):
+				b.Kind == "chunked" && !(b.Total == eff+1 || b.Total < 0 || b.Total == eff),
+				b.Kind == "chunked" && eff > 1<<20 && b.CSize == eff: // against 4 MiB: at-limit witness = Content-Length L only
 				continue
 			}
 		}
@@ -1650,6 +1658,13 @@ func c07Scenarios(r *vrt.R) []c07Sc {
 			}
 		}
 	}
+	// thorough: the same histories (depth 2, with / without Expect) on a server whose limit is left at 0 = 4 MiB default
+	// (overrides 16 MiB and 1 MiB)
+	if r.Thorough() {
+		for _, h := range c07Histories(DefaultMaxRequestBodySize, 2, true) {
+			out = append(out, c07Sc{Mode: "server-history", L: 0, Hist: h})
+		}
+	}
 	// heads
 	for _, rbs := range []int{16, 128, 512, 4096, 0} {
 		e := int(c07rbs(rbs))
@@ -1723,7 +1738,7 @@ func TestVerif_C07(t *testing.T) {
 		"Object reuse: every sequence of 2-3 steps over {streaming HostClient, non-streaming HostClient, StreamBody+ReadLimitBody, ReadLimitBody} x {body L, body L+1} + {Reset, Release+Acquire} on ONE Response/Request object, x {Content-Length, chunked, identity}: "+
 		"every step that is not a streamed read (by the documented state: StreamBody set by a streaming use stays until Reset/Release) is judged like a fresh object. "+
 		"Connection histories: every sequence of <= 3 requests on one keep-alive connection over {no per-request limit, HeaderReceived override 4L, override L/4} x body size {L/4, L/4+1, L, L+1, 4L, 4L+1} x {Content-Length, chunked} (and, to depth 2 in the quick tier / 3 in the thorough tier, x {without, with Expect: 100-continue}) "+
-		"in which only the last request may exceed its limit: each request is bounded by the limit in force for IT (its own override, else the server limit), an over-limit request gets an error response + close and nothing after it is dispatched. "+
+		"in which only the last request may exceed its limit (thorough: also depth-2 histories on a server whose limit is left at the 4 MiB default): each request is bounded by the limit in force for IT (its own override, else the server limit), an over-limit request gets an error response + close and nothing after it is dispatched. "+
 		"Request heads of ReadBufferSize-1/+0/+1/x2/x10 bytes (padding in URI / one value / many lines; delivered whole, 1 or 7 bytes per read) => 431 + close when larger than the buffer, and no more than one buffer pulled. " +
 		"Body*WithLimit helpers on gzip/deflate/br/zstd payloads of L-1/L/L+1/2L+3/10 MiB zero bytes (ratio >= 1000) and MultipartFormWithLimit on plain/gzip/streamed forms of L-1/L/L+1/L+1000/10-20 MiB: never more than L bytes returned, ErrBodyTooLarge above L. " +
 		"Non-trivial: scenarios whose stream exceeds the limit or sits exactly at it.")
